@@ -29,17 +29,25 @@ def crafted():
         # state wakes the sleeper and is processed like any other event, the handler is retried in time
         *[{'id': f'relist-while-sleeping-{d}-{tr}', 'handlers': {'a': H.hdl(['create', 'update'], [('temp', d), 'ok'])},
            'lifecycle': 'asap', 'env': [(tr, 1, 'relist')], 'end': 90, 'tail_from': 40} for d, tr in ((6, 3), (4, 2), (8, 5), (6, 6))],
+        # a raw-event handler whose result does not change: the cycle's patch is a no-op (F35: the retry of a sibling change handler was
+        # not slept for; F36: the version such a patch returns was expected for good, an edit made meanwhile was not handled)
+        *[{'id': f'noop-patch-retry-{d}-{int(ss)}', 'handlers': {'a': H.hdl(['create', 'update'], [('temp', d), 'ok'])}, 'res': {'ssub': ss, 'ev': ev},
+           'lifecycle': 'asap', 'env': [], 'end': 60, 'tail_from': 30} for d, ss, ev in ((3, False, True), (3, True, 'const'), (7, False, 'const'))],
+        *[{'id': f'noop-patch-edit-{te}-{int(ss)}', 'handlers': {'a': H.hdl(['create', 'update'], ['ok', 'ok', 'ok'])}, 'res': {'ssub': ss, 'ev': 'const'},
+           'lifecycle': 'asap', 'env': [(te, 1, 'edit', 2)], 'end': 60, 'tail_from': 30} for te, ss in ((3, False), (2, True), (5, False), (9, False))],
         {'id': 'known-F22', 'handlers': {'a': H.hdl(['create', 'update'], [('temp', 5), 'ok'])},
          'lifecycle': 'asap', 'env': [(3, 1, 'toggle')], 'end': 90, 'tail_from': 40},
     ]
 
 
 def run(ctx, rep) -> None:
-    rep.rule = ('(A) TLC exhaustive on MC_Handling_{nodoors,restart,live} + witness configs; (B) seeded random histories of profile '
+    rep.rule = ('(A) TLC exhaustive on MC_Handling_{nodoors,restart,live,res_ev} + witness configs; (B) seeded random histories of profile '
                 '`converge` run to quiescence on the real operator, judged by Trace_Handling (final state Converged unless excused by a '
                 f'known family) + no PATCH in the tail window; non-trivial = the trace shows one of {sorted(FEATURES)}')
-    _family.model_check(rep, ['nodoors', 'restart'] + ([] if ctx.quick else ['finalizer']) + ['live'],
-                        {'neg_f8': 'FinalStateSeen', 'neg_f20': 'Witness_F20', 'neg_f21': 'Witness_F21', 'neg_f22': 'Witness_F22'}, ctx)
+    _family.model_check(rep, ['nodoors', 'restart'] + ([] if ctx.quick else ['finalizer']) + ['live', 'res_ev'],
+                        {'neg_f8': 'FinalStateSeen', 'neg_f20': 'Witness_F20', 'neg_f21': 'Witness_F21', 'neg_f22': 'Witness_F22',
+                         # the code before the fixes F35 / F36 (NoopSleeps <- FALSE, NoopExpects <- TRUE): handling does not terminate
+                         'res_ev_f35': 'TerminalConverged', 'res_ev_f36': 'TerminalConverged'}, ctx)
     scs = crafted() + H.gen_scenarios(ctx.seed, 150 if ctx.quick else 3000, 'converge')
     # histories with late echoes of the own patch and with deletions under foreign finalizers run to quiescence, too
     scs += H.gen_scenarios(ctx.seed, 40 if ctx.quick else 1500, 'consistency') + H.gen_scenarios(ctx.seed, 40 if ctx.quick else 1500, 'finalizer')
